@@ -684,7 +684,7 @@ func splitGroups(r *vk.Run, scs []*scen) []splitJob {
 	maxS := vk.Pick(r, 2, 3)
 	dirs := vk.Pick(r, []bool{false}, []bool{false, true})
 	for _, sc := range scs {
-		if !sc.split || sc.xview || sc.catchup || (sc.deep && !r.Thorough()) {
+		if !sc.split || sc.xview || sc.catchup || sc.reqtx || (sc.deep && !r.Thorough()) {
 			continue
 		}
 		for _, v1 := range []bool{false, true} {
